@@ -253,6 +253,11 @@ def _drops_only_empty_groups(e: ast.AST, base: str) -> bool:
         return False
     v = e.generators[0].target.id
     t = e.generators[0].ifs[0]
+    # `not (isinstance(o, G) and not o.items)` is the same test
+    if isinstance(t, ast.UnaryOp) and isinstance(t.op, ast.Not) and isinstance(t.operand, ast.BoolOp) and isinstance(t.operand.op, ast.And) and len(t.operand.values) == 2:
+        def neg(x: ast.AST) -> ast.AST:
+            return x.operand if isinstance(x, ast.UnaryOp) and isinstance(x.op, ast.Not) else ast.UnaryOp(op=ast.Not(), operand=x)
+        t = ast.BoolOp(op=ast.Or(), values=[neg(x) for x in t.operand.values])
     if not (isinstance(t, ast.BoolOp) and isinstance(t.op, ast.Or) and len(t.values) == 2):
         return False
     notinst = [x for x in t.values if isinstance(x, ast.UnaryOp) and isinstance(x.op, ast.Not) and isinstance(x.operand, ast.Call) and src(x.operand.func) == "isinstance" and len(x.operand.args) == 2 and src(x.operand.args[0]) == v]
@@ -578,8 +583,12 @@ def _traversal(ctx: Ctx, rep: Report, f: Func) -> None:  # noqa: C901
             dom = IntSet([(enum_start, enum_start + N - 1)])
             got = s_.intersect(dom)
             wantset = IntSet([(enum_start, enum_start + N - 2)])
+            all_but_first = IntSet([(enum_start + 1, enum_start + N - 1)])
+            inc_first = all(st in cfg.reachable(inc, avoid=lambda m: m is loop, labels_avoid=("exc",)) and inc not in cfg.reachable(st, avoid=lambda m: m is loop, labels_avoid=("exc",)) for st in stores)
             if got == wantset:
                 okc = True
+            elif got == all_but_first and inc_first:
+                okc = True  # the step is added BEFORE every item but the first: the same numbers, the same last number
             else:
                 why = f"the increment runs for positions {got} of {dom} (expected all but the last)"
         if not okc and conds:
